@@ -296,3 +296,14 @@ claim("C38", IRJ,
       "functions are exported and TLC requires equality (both inclusions).",
       "TLC; register (identifier) facts only; one recorded known finding (liveness of blocks that cannot reach an exit)",
       "DESIGN.md 5/C38", "IRJudge")
+
+claim("C39", IRJ,
+      "IRJudge.tla executes the FULL assignment blocks of a dependency solution's history (IRMachine.StepBlock, last block cut at the "
+      "queried line) over concrete initial states and requires that (a) every tracked element's final value equals TLC's evaluation "
+      "of the expression DependencyResult.emul() computed from the sliced assignments, and (b) in implicit mode the solver's path "
+      "constraints (evaluated under the same initial state) hold exactly when the reference execution follows the history block by "
+      "block (Follows). Solutions come from DependencyGraph.get on random loop-free lifted x86-32 functions (random target block, "
+      "line and register pair; explicit and implicit mode; alias-free and aliasing memory layouts).",
+      "TLC; loop-free x86-32 functions without calls; one recorded known finding (stores reaching a load through a different address "
+      "expression are not tracked), identified by a trigger TLC re-decides on every run",
+      "DESIGN.md 5/C39", "IRJudge")
